@@ -135,6 +135,7 @@ def run(rep: core.Report):
     _r19d(rep)
     _r19e(rep)
     _r19h(rep)
+    _r19q(rep)
     _r19k(rep)
     _r19l(rep)
     _r19m(rep)
@@ -366,6 +367,42 @@ def _r19g(rep):
 
 
 
+def _r19q(rep):
+    """The lattice of the CIF transformation has the lattice vectors as columns, wherever it comes from."""
+    from engine import frames
+    from engine.frames import C as CART, L as LAT
+
+    rep.rule("R19q", "CIF transformation input: the matrix A of U_cif = (A N)^-1 U (A N)^-T holds the lattice vectors as COLUMNS (frame typing (Cartesian, L-)): the value the API passes (primitive.cell.T) and any default taken inside ThermalDisplacementMatrices; the row-vector matrix primitive.cell gives a symmetric, positive semi-definite and wrong U_cif for every lattice whose matrix is not symmetric", 1)
+    want = (CART, LAT("p", "-"))
+    n = 0
+    # call sites in the API
+    API_ = "phonopy/api_phonopy.py"
+    for fn in [x for x in ast.walk(core.parse(API_)) if isinstance(x, ast.FunctionDef)]:
+        for c in ast.walk(fn):
+            if isinstance(c, ast.Call) and core.src(c.func).endswith("ThermalDisplacementMatrices"):
+                kw = [k.value for k in c.keywords if k.arg == "lattice"]
+                if not kw:
+                    continue
+                ty = frames.Typer(fn, seeds={"self._primitive.cell": (LAT("p", "-"), CART), "self.primitive.cell": (LAT("p", "-"), CART)}, params={}, call_sigs={}, where=f"{API_}::{fn.name}")
+                ty.run()
+                got = ty.expr(kw[0])
+                n += 1
+                ok = got is not None and len(got) == 2 and frames.same_axis(got[0], want[0]) is not False and frames.same_axis(got[1], want[1]) is not False
+                rep.instance("R19q", API_, core.qualname_of(fn), f"lattice={core.src(kw[0])} : {frames.show(got)}", ok, f"the lattice handed to the CIF transformation is typed {frames.show(got)}, not {frames.show(want)}", line=c.lineno)
+    # defaults taken inside the class
+    init = core.find_def(TD, "ThermalDisplacementMatrices.__init__")
+    for st in ast.walk(init):
+        if isinstance(st, ast.Assign) and any(isinstance(x, ast.Attribute) and x.attr == "cell" for x in ast.walk(st.value)):
+            ty = frames.Typer(init, seeds={}, params={}, call_sigs={}, where=f"{TD}::ThermalDisplacementMatrices.__init__")
+            got = ty.expr(st.value)
+            n += 1
+            ok = got is not None and len(got) == 2 and frames.same_axis(got[0], want[0]) is not False and frames.same_axis(got[1], want[1]) is not False
+            rep.instance("R19q", TD, "ThermalDisplacementMatrices.__init__", f"{core.norm(core.src(st), 70)} : {frames.show(got)}", ok,
+                         f"the default lattice of the CIF transformation is typed {frames.show(got)} (lattice vectors in rows), not {frames.show(want)}: the CIF matrices written for hexagonal, monoclinic, triclinic cells are those of another lattice", line=st.lineno)
+    if n < 1:
+        raise AnalysisError("R19q: no lattice reaches the CIF transformation (neither from the API nor as a default)")
+
+
 def _r19h(rep):
     """CIF convention: U_cart = (A N) U_cif (A N)^T with A the lattice vectors as columns and N = diag(|a*|, |b*|, |c*|),
     a*, b*, c* the rows of A^-1."""
@@ -380,6 +417,9 @@ def _r19h(rep):
         raise AnalysisError(f"{TD}::{M}.__init__: the lattice argument or its None test vanished")
     t = arms[0].test
     given = arms[0].body if isinstance(t, ast.Compare) and isinstance(t.ops[0], ast.IsNot) else arms[0].orelse
+    # statements that follow the test in __init__ belong to both arms (A chosen in the arms, the transformation after)
+    if arms[0] in init.body:
+        given = list(given) + init.body[init.body.index(arms[0]) + 1:]
     A, B = symnp.matrix("a", 3, 3), symnp.matrix("b", 3, 3)
 
     class Inv:
@@ -619,6 +659,7 @@ def selftest():
     n = lambda name, file, old, new, **kw: V.append(dict(name=name, kind="neutral", file=file, old=old, new=new, **kw))
     b("atomic phases broadcast over the band axis", RD, "        eigvecs = []\n        # Transform eigenvectors of D-type to those of C-type\n        for q, eigvec in zip(qpoints, self._eigvecs_ii):\n            Vd = np.repeat(np.exp(-2j * np.pi * np.dot(self._ppos, q)), 3)\n            eigvecs.append((Vd * eigvec.T).T)\n", "        Vd = np.repeat(np.exp(-2j * np.pi * np.dot(qpoints, self._ppos.T)), 3, axis=1)\n        eigvecs = Vd[:, None, :] * np.array(self._eigvecs_ii)\n", "R19m", "_collect_eigensolutions")
     n("atomic phases broadcast over the component axis", RD, "        eigvecs = []\n        # Transform eigenvectors of D-type to those of C-type\n        for q, eigvec in zip(qpoints, self._eigvecs_ii):\n            Vd = np.repeat(np.exp(-2j * np.pi * np.dot(self._ppos, q)), 3)\n            eigvecs.append((Vd * eigvec.T).T)\n", "        Vd = np.repeat(np.exp(-2j * np.pi * np.dot(qpoints, self._ppos.T)), 3, axis=1)\n        eigvecs = Vd[:, :, None] * np.array(self._eigvecs_ii)\n")
+    b("API hands the row-vector lattice to the CIF transformation", "phonopy/api_phonopy.py", "            lattice=self._primitive.cell.T,", "            lattice=self._primitive.cell,", "R19q", "lattice=")
     D2F = "phonopy/harmonic/dynmat_to_fc.py"
     b("batched reassembly with the conjugate on the left factor", D2F, "        dm = []\n        for eigvals, eigvecs in zip(eigenvalues, eigenvectors):\n            dm.append(np.dot(np.dot(eigvecs, np.diag(eigvals)), eigvecs.T.conj()))\n        self.dynamical_matrices = dm\n", "        eigvals = np.asarray(eigenvalues)\n        eigvecs = np.asarray(eigenvectors)\n        self.dynamical_matrices = np.matmul(\n            eigvecs.conj() * eigvals[:, None, :], eigvecs.transpose(0, 2, 1)\n        )\n", "R19l", "create_dynamical_matrices")
     n("batched reassembly, conjugate on the right factor", D2F, "        dm = []\n        for eigvals, eigvecs in zip(eigenvalues, eigenvectors):\n            dm.append(np.dot(np.dot(eigvecs, np.diag(eigvals)), eigvecs.T.conj()))\n        self.dynamical_matrices = dm\n", "        eigvals = np.asarray(eigenvalues)\n        eigvecs = np.asarray(eigenvectors)\n        self.dynamical_matrices = np.matmul(\n            eigvecs * eigvals[:, None, :], eigvecs.conj().transpose(0, 2, 1)\n        )\n")
